@@ -31,6 +31,7 @@ type SliceAlt struct {
 	G             *Term
 	Arr           *Object // nil => nil slice
 	Off, Len, Cap *Term   // BV64
+	ML1, MC1      int     // 1 + (upper bound of Len / lower bound of Cap valid wherever this alternative is live); 0 = unknown
 }
 type SliceV struct{ Alts []SliceAlt }
 
@@ -107,6 +108,7 @@ type Object struct {
 	AfterFns  []Value
 	Err       Value
 	Tag       string
+	Live      *Term // pooled arrays: disjunction of the guards under which the object was allocated
 }
 
 type EnvChan struct {
@@ -348,6 +350,16 @@ func (e *Engine) iteVal(c *Term, a, b Value) Value {
 					out[i].Len = tb.Ite(g, al.Len, out[i].Len)
 					out[i].Cap = tb.Ite(g, al.Cap, out[i].Cap)
 					out[i].G = tb.Or(out[i].G, g)
+					if al.ML1 == 0 || out[i].ML1 == 0 {
+						out[i].ML1 = 0
+					} else if al.ML1 > out[i].ML1 {
+						out[i].ML1 = al.ML1
+					}
+					if al.MC1 == 0 || out[i].MC1 == 0 {
+						out[i].MC1 = 0
+					} else if al.MC1 < out[i].MC1 {
+						out[i].MC1 = al.MC1
+					}
 					found = true
 					break
 				}
